@@ -290,8 +290,7 @@ def execute(spec, w, ctx):
                 if out0["status"] == "ok":
                     opens = [e[4] for e in out0["fs_events"] if genops.is_write_open(e)]
                     lo = opens[0] if opens else 1
-                    cfg["interrupt"] = {"at": lo + int(op["interrupt"]["frac"] * max(0, out0["steps"] - lo)),
-                                        "exc": op["interrupt"].get("exc")}
+                    cfg["interrupt"] = {"at": common.interrupt_at(op["interrupt"], out0, lo), "exc": op["interrupt"].get("exc")}
             out, before, after, changed, wopens = genops.run_gen(w, op, cfg)
             faulted = bool(out["fs_fired"]) or out["status"] == "interrupt" or bool(out.get("injected"))
             r = genops.ref_gen(ctx, op)
